@@ -377,7 +377,7 @@ theorem migration_cutoff_zero_fails :
   ⟨reach_run Reach.init _ (by decide), by decide⟩
 
 /-- NEGATION WITNESS (second defect of the migration at the pinned commit): one retained block whose state
-diff names a storage slot it did not change (no history entry) makes the stager fail — after the lookup
+diff writes zero to an empty storage slot (no history entry) makes the stager fail — after the lookup
 buckets were wiped and the blocks below the cut-off deleted. -/
 theorem migration_unchanged_slot_fails :
     let c : Cfg := { origCfg with retained := 1 }
